@@ -399,6 +399,73 @@ def check_crit(case):
     return R(fails, nt=nt, labels=labels)
 
 
+def check_critarr(case):
+    """A criterion given as an array is the scalar rule once per element: FN(range, {c1,c2,..}) must equal the row of
+    FN(range, c1), FN(range, c2), .. - whatever the kinds of the criteria and their order (each single-criterion result is
+    itself checked against the search definition by the 'crit' cases)."""
+    fn = case['fn']
+    crits = [dec(c) for c in case['crits']]
+    rng = decm(case['rng'])
+    acc = decm(case['acc']) if case.get('acc') is not None else None
+    inputs = {'B1:B%d' % len(rng): rng}
+    tail = ''
+    if acc is not None:
+        inputs['C1:C%d' % len(acc)] = acc
+        tail = ',C1:C%d' % len(acc)
+    singles = [run('=%s(B1:B%d,%s%s)' % (fn, len(rng), lit(c), tail), inputs) for c in crits]
+    f = '=%s(B1:B%d,{%s}%s)' % (fn, len(rng), ','.join(lit(c) for c in crits), tail)
+    v, _c = sut.cell_eval('Z99:%s99' % ['Z', 'AA', 'AB', 'AC'][len(crits) - 1], f, inputs)
+    got = sut.matrix(v)
+    fails = []
+    row = got[0] if (isinstance(got, list) and len(got) == 1 and len(got[0]) == len(crits)) else None
+    if row is None:
+        fails.append(('%s|array-criterion|shape' % fn, '%s -> %r' % (show(f, inputs), got)))
+    else:
+        raised = [c for c, e in zip(crits, singles) if isinstance(e, Err) and e.t == '#VALUE!']
+        if fn == 'AVERAGEIF' and raised and all(isinstance(g, Err) and g.t == '#VALUE!' for g in row) \
+                and any(not X.same(g, e, rel=1e-9) for g, e in zip(row, singles)):
+            # listed finding F56: averaging a selection that holds numeric text raises inside the function; alone that
+            # criterion gives #VALUE!, inside an array criterion the exception replaces every element
+            fails.append(('AVERAGEIF|array-criterion|raising-element-replaces-every-element',
+                          '%s -> %r, but %r alone gives #VALUE! and the other elements alone give %r' % (show(f, inputs), row, raised[0], singles)))
+            row, singles = [], []
+        for i, (g, e) in enumerate(zip(row, singles)):
+            if not X.same(g, e, rel=1e-9):
+                fails.append(('%s|array-criterion|differs-from-single' % ('criterion' if fn == 'COUNTIF' else fn),
+                              '%s -> %r, but element %d alone (%r) gives %r' % (show(f, inputs), row, i, crits[i], e)))
+                break
+    kinds = set()
+    for c in crits:
+        cr = L.parse_criterion(c)
+        kinds.add('none' if cr is None else ('wild' if (cr['kind'] == 'text' and L.is_pattern(cr['tokens'])) else cr['kind']))
+    labels = ['critarr:%s' % fn, 'critarr-kinds:%s' % '+'.join(sorted(kinds))]
+    return R(fails, nt=len(kinds) > 1, labels=labels)
+
+
+CRITARR_POOL = [1.0, '12', '>5', '<=7', '<>12', 'abc', '>0z', '<b', '<>abc', 'a*', '*2', True, '=TRUE', '', '>=12', 12.0]
+CRITARR_RANGES = [
+    [5.0, '12', 'abc', 12.0, '7', 'b'],
+    ['3', 3.0, 'a12', '12', True, BLANK],
+    [1.0, 'TRUE', True, '1', 'x', 0.0],
+]
+
+
+def _enum_critarr(tier):
+    i = 0
+    for ri, vals in enumerate(CRITARR_RANGES):
+        for a in CRITARR_POOL:
+            for b in CRITARR_POOL:
+                if a is b:
+                    continue
+                i += 1
+                if tier == 'quick' and (i + ri) % 3:
+                    continue
+                fn = ('COUNTIF', 'SUMIF', 'AVERAGEIF')[i % 3]
+                crits = [a, b] if i % 5 else [a, b, a]
+                yield {'k': 'critarr', 'fn': fn, 'crits': [enc(c) for c in crits], 'rng': encm([[v] for v in vals]),
+                       'acc': None if fn == 'COUNTIF' or i % 2 else encm([[x] for x in ACC[:len(vals)]])}
+
+
 COMPUTED_TRUE = ['AND(TRUE,TRUE)', 'NOT(FALSE)', 'ISNUMBER(1)', 'OR(FALSE,TRUE)', '(1=1)']
 COMPUTED_FALSE = ['AND(TRUE,FALSE)', 'NOT(TRUE)', 'ISTEXT(1)', 'XOR(TRUE,TRUE)', '(1=2)']
 
@@ -468,6 +535,8 @@ def check_case(case):
         return check_table(case)
     if k == 'crit':
         return check_crit(case)
+    if k == 'critarr':
+        return check_critarr(case)
     raise ValueError(k)
 
 
@@ -957,6 +1026,7 @@ def parts(tier, seed):
         ('enum', 'lookup', _enum_lookup(tier), 100, not q),
         ('enum', 'table', table, 100, not q),
         ('enum', 'criteria', crit, 100, not q),
+        ('enum', 'criteria-array', _enum_critarr(tier), 60, not q),
         ('enum', 'computed-logicals', meta_logical_cases(), 2, False),
         ('hyp', 'rand-look', 1600 if q else 100000),
         ('hyp', 'rand-crit', 1600 if q else 100000),
